@@ -181,3 +181,404 @@ Print Assumptions c07_stdin_same.
 Print Assumptions c07_show_reports_decoded.
 Print Assumptions c07_sample_accepted.
 Print Assumptions c07_sample_overflow_rejected.
+
+(* ====================================================================================================== *)
+(** * end to end with create (X5)
+
+    `torrent show` on the bytes `torrent create` wrote reports exactly what the command line asked for.
+    Composition of C05 ([Metainfo.build]: the value create serialises from its options [o] and the content [c]
+    walker + hasher hand over), C04 ([encode] / the strict reader) and this file's loader and report.
+    Model: Model/EndToEndShow.v; proofs: Proofs/EndToEndShowProofs.v; instances: Proofs/EndToEndShowExamples.v.
+
+    Environment, universally quantified, the same Section variables as in the layers and nothing assumed of them:
+      norm, host_canon, git_suffix : C05's (url crate on the command line; build-time suffix of `created by`)
+      host_disp, url_norm, cal, human : this file's (url crate / chrono / Bytes on what the loader reads)
+    Where the loader runs the url crate on text the url crate printed at creation, the statement carries the
+    composite: [nodes_text] = host_disp (host_canon (unbracket h)) ++ ":" ++ port for every --node (C17's display
+    form), [update_text] = url_norm (norm u); the loader accepts exactly when these are defined
+    ([c07_created_bytes_show_refused]).
+    Side conditions, all decidable and each needed ([c07_e2e_needs_*]): C05's [input_ok] / [opts_ok] (integers fit
+    i64 / u16) and a piece length below 2^63 ([run_create] bounds it by 2^32); [texts_utf8]: the texts written are
+    UTF-8 (they are Rust `String`s; the models keep byte lists); [content_shown_ok]: what walker and hasher hand over
+    is what they always produce - normal UTF-8 path components, MD5 as 32 hex digits exactly under --md5, whole
+    20-byte piece digests - and the lengths add up within u64 (repair 0006).
+
+    X5b (on the models as X4 left them): the typed record the loader builds also carries the MD5 texts
+    ([f_md5], [Single _ md5]): they are the hex MD5s create wrote when --md5 was given and absent otherwise
+    ([c07_created_value_loads], [c07_created_md5_carried]); [show] and [from_input] refuse nesting deeper than
+    [BencodeWide.max_depth] = 2048: a created metainfo nests at most 5 deep ([c07_e2e_depth_within_limit]), which is
+    proved and used, not assumed; [c07_created_bytes_load] states the result for [from_input], the loader shared with
+    `link` and `verify`. *)
+From Imdl Require Model.BencodeWide Model.Metainfo Model.Schema Model.Infohash Generated.GenCreate Generated.GenInfohash
+  Proofs.MetainfoProofs Proofs.EndToEndShowExamples.
+From Imdl Require Import Model.EndToEndShow Proofs.EndToEndShowProofs.
+
+(** bridge: the loader's lookup is the serialiser's, and it asks for the BEP keys C05 writes *)
+Theorem c07_e2e_same_lookup : forall k d, lookup k d = Schema.dget k d.
+Proof. exact lookup_dget. Qed.
+
+Theorem c07_e2e_same_keys :
+  k_announce = Schema.txt "announce" /\ k_announce_list = Schema.txt "announce-list" /\ k_comment = Schema.txt "comment" /\
+  k_created_by = Schema.txt "created by" /\ k_creation_date = Schema.txt "creation date" /\
+  k_encoding = Schema.txt "encoding" /\ k_info = Schema.txt "info" /\ k_nodes = Schema.txt "nodes" /\
+  k_private = Schema.txt "private" /\ k_piece_length = Schema.txt "piece length" /\ k_name = Schema.txt "name" /\
+  k_source = Schema.txt "source" /\ k_pieces = Schema.txt "pieces" /\ k_update_url = Schema.txt "update-url" /\
+  k_length = Schema.txt "length" /\ k_md5sum = Schema.txt "md5sum" /\ k_files = Schema.txt "files" /\
+  k_path = Schema.txt "path".
+Proof. exact loader_keys_are_bep. Qed.
+
+(** bridge: the content size C05 speaks of is the sum the report computes *)
+Theorem c07_e2e_same_total : forall md5 i, total_length (mode_of md5 i) = Metainfo.total_size i.
+Proof. exact total_length_mode. Qed.
+
+(** the typed loader accepts the value create serialises, as the requested metainfo, field by field *)
+Theorem c07_created_value_loads :
+  forall norm host_canon git_suffix host_disp url_norm o c v name nodes upd,
+    Metainfo.input_ok (Metainfo.c_input c) = true -> Metainfo.opts_ok o = true ->
+    Metainfo.piece_length_of o (Metainfo.c_input c) < 2 ^ 63 ->
+    texts_utf8 norm host_canon git_suffix o c = true -> content_shown_ok (Metainfo.o_md5 o) c = true ->
+    Metainfo.build norm host_canon git_suffix o c = Some v ->
+    Metainfo.name_of o (Metainfo.c_input c) = Some name ->
+    nodes_text host_canon host_disp o = Some nodes -> update_text norm url_norm o = Some upd ->
+    typed_of_value host_disp url_norm v =
+      Some {| m_announce := option_map norm (Metainfo.o_announce o);
+              m_announce_list := match Metainfo.tiers_of o with [] => None | ts => Some ts end;
+              m_comment := Metainfo.o_comment o;
+              m_created_by := if Metainfo.o_no_created_by o then None
+                              else Some (GenCreate.created_by_prefix ++ git_suffix);
+              m_creation_date := if Metainfo.o_no_creation_date o then None else Some (Metainfo.o_now o);
+              m_encoding := Some GenCreate.encoding_utf8;
+              m_nodes := nodes;
+              m_private := if Metainfo.o_private o then Some true else None;
+              m_piece_length := Metainfo.piece_length_of o (Metainfo.c_input c);
+              m_name := name;
+              m_source := Metainfo.o_source o;
+              m_pieces := Metainfo.c_pieces c;
+              m_mode :=
+                match Metainfo.c_input c with
+                | Metainfo.InFile _ l x | Metainfo.InStdin l x =>
+                    Single l (if Metainfo.o_md5 o then Some x else None)
+                | Metainfo.InDir _ fs =>
+                    Multiple (map (fun f => {| f_length := Metainfo.f_length f; f_path := Metainfo.f_path f;
+                                               f_md5 := if Metainfo.o_md5 o then Some (Metainfo.f_md5 f) else None |}) fs)
+                end;
+              m_update_url := upd |}.
+Proof. exact built_value_loads. Qed.
+
+(** the nesting bound of bendy's readers (X4: [show] and [from_input] refuse a value nested deeper than 2048) is no
+    restriction on the command line: a created metainfo nests at most 5 deep (top, info, files, one file, its path) *)
+Theorem c07_e2e_depth_within_limit :
+  forall norm host_canon git_suffix o c v,
+    Metainfo.build norm host_canon git_suffix o c = Some v ->
+    BencodeWide.depth v = Infohash.vdepth v /\ BencodeWide.depth v <= 5 /\
+    (BencodeWide.depth v <=? BencodeWide.max_depth) = true.
+Proof. exact build_depth_serde. Qed.
+
+(** the same through [from_input] - Metainfo::from_input on the bytes, the loader `show` shares with `link` and
+    `verify` (serde's reader: integers of any size in the tokenizer, nesting at most 2048, i64 for what is skipped or
+    buffered): it returns the requested metainfo, and refuses exactly when the url crate does not read back a host
+    or the update URL it printed *)
+Theorem c07_created_bytes_load :
+  forall norm host_canon git_suffix host_disp url_norm o c v name nodes upd,
+    Metainfo.input_ok (Metainfo.c_input c) = true -> Metainfo.opts_ok o = true ->
+    Metainfo.piece_length_of o (Metainfo.c_input c) < 2 ^ 63 ->
+    texts_utf8 norm host_canon git_suffix o c = true -> content_shown_ok (Metainfo.o_md5 o) c = true ->
+    Metainfo.build norm host_canon git_suffix o c = Some v ->
+    Metainfo.name_of o (Metainfo.c_input c) = Some name ->
+    nodes_text host_canon host_disp o = Some nodes -> update_text norm url_norm o = Some upd ->
+    from_input host_disp url_norm (encode v) = Some (requested norm git_suffix o c name nodes upd).
+Proof. exact created_bytes_from_input. Qed.
+
+Theorem c07_created_bytes_load_refused :
+  forall norm host_canon git_suffix host_disp url_norm o c v name,
+    Metainfo.input_ok (Metainfo.c_input c) = true -> Metainfo.opts_ok o = true ->
+    Metainfo.piece_length_of o (Metainfo.c_input c) < 2 ^ 63 ->
+    texts_utf8 norm host_canon git_suffix o c = true -> content_shown_ok (Metainfo.o_md5 o) c = true ->
+    Metainfo.build norm host_canon git_suffix o c = Some v ->
+    Metainfo.name_of o (Metainfo.c_input c) = Some name ->
+    nodes_text host_canon host_disp o = None \/ update_text norm url_norm o = None ->
+    from_input host_disp url_norm (encode v) = None.
+Proof. exact created_bytes_from_input_refused. Qed.
+
+(** the MD5 values of the loaded metainfo are the ones create wrote: the `md5sum` entries of the created value hold
+    the hasher's hex texts exactly when --md5 was given (C05), and the loader hands on exactly those - present under
+    --md5, absent otherwise - next to the lengths and the paths, file by file in listed order *)
+Theorem c07_created_md5_carried :
+  forall norm host_canon git_suffix host_disp url_norm o c v name nodes upd,
+    Metainfo.input_ok (Metainfo.c_input c) = true -> Metainfo.opts_ok o = true ->
+    Metainfo.piece_length_of o (Metainfo.c_input c) < 2 ^ 63 ->
+    texts_utf8 norm host_canon git_suffix o c = true -> content_shown_ok (Metainfo.o_md5 o) c = true ->
+    Metainfo.build norm host_canon git_suffix o c = Some v ->
+    Metainfo.name_of o (Metainfo.c_input c) = Some name ->
+    nodes_text host_canon host_disp o = Some nodes -> update_text norm url_norm o = Some upd ->
+    exists m,
+      from_input host_disp url_norm (encode v) = Some m /\
+      typed_of_value host_disp url_norm v = Some m /\
+      match Metainfo.c_input c with
+      | Metainfo.InFile _ l x | Metainfo.InStdin l x =>
+          m_mode m = Single l (if Metainfo.o_md5 o then Some x else None) /\
+          MetainfoProofs.iget (Schema.txt "md5sum") v = (if Metainfo.o_md5 o then Some (Str x) else None)
+      | Metainfo.InDir _ fs =>
+          exists sfs es,
+            m_mode m = Multiple sfs /\ MetainfoProofs.iget (Schema.txt "files") v = Some (Lst es) /\
+            map f_length sfs = map Metainfo.f_length fs /\ map f_path sfs = map Metainfo.f_path fs /\
+            map f_md5 sfs = map (fun f => if Metainfo.o_md5 o then Some (Metainfo.f_md5 f) else None) fs /\
+            Forall2 (fun f e => Schema.vget (Schema.txt "md5sum") e
+                                = (if Metainfo.o_md5 o then Some (Str (Metainfo.f_md5 f)) else None)) fs es
+      end.
+Proof. exact created_md5_carried. Qed.
+
+(** ... as one list (the entry point the correspondence run compares with `md5sum` in the written file and with
+    hashlib's MD5 of the contents): one entry for a single file, one per listed file of a directory *)
+Theorem c07_created_md5_list :
+  forall norm host_canon git_suffix host_disp url_norm o c v name nodes upd,
+    Metainfo.input_ok (Metainfo.c_input c) = true -> Metainfo.opts_ok o = true ->
+    Metainfo.piece_length_of o (Metainfo.c_input c) < 2 ^ 63 ->
+    texts_utf8 norm host_canon git_suffix o c = true -> content_shown_ok (Metainfo.o_md5 o) c = true ->
+    Metainfo.build norm host_canon git_suffix o c = Some v ->
+    Metainfo.name_of o (Metainfo.c_input c) = Some name ->
+    nodes_text host_canon host_disp o = Some nodes -> update_text norm url_norm o = Some upd ->
+    e2e_md5s norm host_canon git_suffix host_disp url_norm o c =
+      Some (match Metainfo.c_input c with
+            | Metainfo.InFile _ _ x | Metainfo.InStdin _ x => [if Metainfo.o_md5 o then Some x else None]
+            | Metainfo.InDir _ fs => map (fun f => if Metainfo.o_md5 o then Some (Metainfo.f_md5 f) else None) fs
+            end).
+Proof. exact e2e_md5s_created. Qed.
+
+(** headline: for every command line and content, `show` of the bytes prints the report below - name = --name or
+    the input's file name, comment, creation date = the clock unless suppressed, created by, source, tracker =
+    normalised --announce, announce list = the tiers in order (members as written), update URL, DHT nodes in their
+    display form, piece size, private flag, files in listed order under the name, content size = sum of the
+    lengths, piece count = |pieces| / 20, file count, torrent size = length of the bytes - and the two text forms
+    are renderings of the same table (c07_tab_same_values / c07_terminal_same_values / c07_files_row apply to it) *)
+Theorem c07_created_bytes_show_back :
+  forall norm host_canon git_suffix host_disp url_norm cal human src o c v name nodes upd ih,
+    Metainfo.input_ok (Metainfo.c_input c) = true -> Metainfo.opts_ok o = true ->
+    Metainfo.piece_length_of o (Metainfo.c_input c) < 2 ^ 63 ->
+    texts_utf8 norm host_canon git_suffix o c = true -> content_shown_ok (Metainfo.o_md5 o) c = true ->
+    Metainfo.build norm host_canon git_suffix o c = Some v ->
+    Metainfo.name_of o (Metainfo.c_input c) = Some name ->
+    nodes_text host_canon host_disp o = Some nodes -> update_text norm url_norm o = Some upd ->
+    let i := Metainfo.c_input c in
+    let len := N.of_nat (List.length (encode v)) in
+    let t := table_of cal (requested norm git_suffix o c name nodes upd) (Metainfo.total_size i) len ih in
+    show cal human host_disp url_norm src (encode v) ih =
+    ShowPrinted
+      [ (bs "name", JvStr name);
+        (bs "comment", jopt_str (Metainfo.o_comment o));
+        (bs "creation_date", jopt_num (if Metainfo.o_no_creation_date o then None else Some (Metainfo.o_now o)));
+        (bs "created_by", jopt_str (if Metainfo.o_no_created_by o then None
+                                    else Some (GenCreate.created_by_prefix ++ git_suffix)));
+        (bs "source", jopt_str (Metainfo.o_source o));
+        (bs "info_hash", JvStr ih);
+        (bs "torrent_size", JvNum len);
+        (bs "content_size", JvNum (Metainfo.total_size i));
+        (bs "private", JvBool (Metainfo.o_private o));
+        (bs "tracker", jopt_str (option_map norm (Metainfo.o_announce o)));
+        (bs "announce_list", JvArr (map (fun t => JvArr (map JvStr (Metainfo.split_on 44 t))) (Metainfo.o_tiers o)));
+        (bs "update_url", jopt_str upd);
+        (bs "dht_nodes", JvArr (map JvStr (match nodes with Some l => l | None => [] end)));
+        (bs "piece_size", JvNum (Metainfo.piece_length_of o i));
+        (bs "piece_count", JvNum (N.of_nat (List.length (Metainfo.c_pieces c)) / 20));
+        (bs "file_count", JvNum (if is_dir i then N.of_nat (List.length (listed_files i)) else 1));
+        (bs "files", JvArr (if is_dir i
+                            then map (fun f => JvStr (joined_under name (Metainfo.f_path f))) (listed_files i)
+                            else [JvStr name])) ]
+      (render_tab t) (render_term human t).
+Proof. exact created_bytes_show_back. Qed.
+
+(** ... and the same for the bytes actually written, once the checks of Create::run have passed (they bound the
+    piece length, so that hypothesis goes) *)
+Theorem c07_written_bytes_show_back :
+  forall norm host_canon git_suffix host_disp url_norm url_ok cal human src o c tb name nodes upd ih,
+    Metainfo.input_ok (Metainfo.c_input c) = true -> Metainfo.opts_ok o = true ->
+    texts_utf8 norm host_canon git_suffix o c = true -> content_shown_ok (Metainfo.o_md5 o) c = true ->
+    Metainfo.create_bytes norm url_ok host_canon git_suffix o c = Some tb ->
+    Metainfo.name_of o (Metainfo.c_input c) = Some name ->
+    nodes_text host_canon host_disp o = Some nodes -> update_text norm url_norm o = Some upd ->
+    let len := N.of_nat (List.length tb) in
+    let t := table_of cal (requested norm git_suffix o c name nodes upd) (Metainfo.total_size (Metainfo.c_input c)) len ih in
+    show cal human host_disp url_norm src tb ih =
+    ShowPrinted (requested_json norm git_suffix o c name nodes upd len ih) (render_tab t) (render_term human t).
+Proof. exact written_bytes_show_back. Qed.
+
+(** the loader refuses the created bytes exactly when the url crate does not read back a host or the update URL
+    it printed itself (so the two `Some` hypotheses above are not a restriction on the command line) *)
+Theorem c07_created_bytes_show_refused :
+  forall norm host_canon git_suffix host_disp url_norm cal human src o c v name ih,
+    Metainfo.input_ok (Metainfo.c_input c) = true -> Metainfo.opts_ok o = true ->
+    Metainfo.piece_length_of o (Metainfo.c_input c) < 2 ^ 63 ->
+    texts_utf8 norm host_canon git_suffix o c = true -> content_shown_ok (Metainfo.o_md5 o) c = true ->
+    Metainfo.build norm host_canon git_suffix o c = Some v ->
+    Metainfo.name_of o (Metainfo.c_input c) = Some name ->
+    nodes_text host_canon host_disp o = None \/ update_text norm url_norm o = None ->
+    show cal human host_disp url_norm src (encode v) ih = ShowRejected.
+Proof. exact created_bytes_show_refused. Qed.
+
+(** every optional field is null / empty in the report exactly when its option was not given *)
+Theorem c07_created_absent_iff_not_given :
+  forall norm host_canon git_suffix host_disp url_norm o c name nodes upd len ih,
+    nodes_text host_canon host_disp o = Some nodes -> update_text norm url_norm o = Some upd ->
+    let j := requested_json norm git_suffix o c name nodes upd len ih in
+    (jfield j (bs "comment") = JvNull <-> Metainfo.o_comment o = None) /\
+    (jfield j (bs "creation_date") = JvNull <-> Metainfo.o_no_creation_date o = true) /\
+    (jfield j (bs "created_by") = JvNull <-> Metainfo.o_no_created_by o = true) /\
+    (jfield j (bs "source") = JvNull <-> Metainfo.o_source o = None) /\
+    (jfield j (bs "tracker") = JvNull <-> Metainfo.o_announce o = None) /\
+    (jfield j (bs "announce_list") = JvArr [] <-> Metainfo.o_tiers o = []) /\
+    (jfield j (bs "update_url") = JvNull <-> Metainfo.o_update_url o = None) /\
+    (jfield j (bs "dht_nodes") = JvArr [] <-> Metainfo.o_nodes o = []) /\
+    jfield j (bs "private") = JvBool (Metainfo.o_private o).
+Proof. exact requested_absent_iff. Qed.
+
+(** instances: a command line with every option and one with none satisfy the hypotheses, and the reports are
+    the expected ones *)
+Example c07_e2e_all_options_hyps :
+  EndToEndShowExamples.hyps EndToEndShowExamples.all_opts MetainfoProofs.ex_content = true /\
+  Metainfo.name_of EndToEndShowExamples.all_opts (Metainfo.c_input MetainfoProofs.ex_content) = Some (bs "my name") /\
+  nodes_text EndToEndShowExamples.idb EndToEndShowExamples.host_brackets EndToEndShowExamples.all_opts
+    = Some (Some [bs "router.example.com:6881"; bs "[2001:db8::1]:6882"; bs "203.0.113.5:1"]) /\
+  update_text EndToEndShowExamples.idb EndToEndShowExamples.some_url EndToEndShowExamples.all_opts
+    = Some (Some (bs "https://example.com/feed")) /\
+  exists v, Metainfo.build EndToEndShowExamples.idb EndToEndShowExamples.idb EndToEndShowExamples.ex_suffix
+              EndToEndShowExamples.all_opts MetainfoProofs.ex_content = Some v /\
+            Infohash.depth_ok GenInfohash.max_depth v = true.
+Proof. exact EndToEndShowExamples.ex_all_hyps. Qed.
+
+Example c07_e2e_all_options_report :
+  EndToEndShowExamples.shown_json EndToEndShowExamples.all_opts MetainfoProofs.ex_content =
+  Some [ JvStr (bs "my name"); JvStr (bs "hello"); JvNull; JvNull; JvStr (bs "SRC"); JvStr EndToEndShowExamples.ex_ih;
+         JvNum (match EndToEndShowExamples.built EndToEndShowExamples.all_opts MetainfoProofs.ex_content with
+                | Some tb => N.of_nat (List.length tb) | None => 0 end);
+         JvNum 3; JvBool true; JvStr (bs "http://example.com/announce");
+         JvArr [JvArr [JvStr (bs "http://a.example/announce"); JvStr (bs "udp://b.example:1337/announce")];
+                JvArr [JvStr (bs "http://c.example/announce")]];
+         JvStr (bs "https://example.com/feed");
+         JvArr [JvStr (bs "router.example.com:6881"); JvStr (bs "[2001:db8::1]:6882"); JvStr (bs "203.0.113.5:1")];
+         JvNum 32768; JvNum 1; JvNum 2; JvArr [JvStr (bs "my name/a"); JvStr (bs "my name/sub/b")] ].
+Proof. exact EndToEndShowExamples.ex_all_report. Qed.
+
+Example c07_e2e_no_option_hyps :
+  EndToEndShowExamples.hyps EndToEndShowExamples.no_opts EndToEndShowExamples.one_file = true /\
+  Metainfo.name_of EndToEndShowExamples.no_opts (Metainfo.c_input EndToEndShowExamples.one_file) = Some (bs "file.bin") /\
+  nodes_text EndToEndShowExamples.idb EndToEndShowExamples.host_brackets EndToEndShowExamples.no_opts = Some None /\
+  update_text EndToEndShowExamples.idb EndToEndShowExamples.some_url EndToEndShowExamples.no_opts = Some None /\
+  exists v, Metainfo.build EndToEndShowExamples.idb EndToEndShowExamples.idb EndToEndShowExamples.ex_suffix
+              EndToEndShowExamples.no_opts EndToEndShowExamples.one_file = Some v /\
+            Infohash.depth_ok GenInfohash.max_depth v = true.
+Proof. exact EndToEndShowExamples.ex_none_hyps. Qed.
+
+Example c07_e2e_no_option_report :
+  EndToEndShowExamples.shown_json EndToEndShowExamples.no_opts EndToEndShowExamples.one_file =
+  Some [ JvStr (bs "file.bin"); JvNull; JvNum 1790000000;
+         JvStr (GenCreate.created_by_prefix ++ EndToEndShowExamples.ex_suffix); JvNull; JvStr EndToEndShowExamples.ex_ih;
+         JvNum (match EndToEndShowExamples.built EndToEndShowExamples.no_opts EndToEndShowExamples.one_file with
+                | Some tb => N.of_nat (List.length tb) | None => 0 end);
+         JvNum 5; JvBool false; JvNull; JvArr []; JvNull; JvArr []; JvNum 16384; JvNum 1; JvNum 1;
+         JvArr [JvStr (bs "file.bin")] ].
+Proof. exact EndToEndShowExamples.ex_none_report. Qed.
+
+(** the MD5 texts in the loaded metainfo: present under --md5 (one file; the directory of the all-options command
+    line), absent without it; and the nesting of those two metainfos against the limit *)
+Example c07_e2e_md5_values :
+  option_map m_mode (EndToEndShowExamples.loaded (EndToEndShowExamples.with_md5 EndToEndShowExamples.no_opts)
+                       EndToEndShowExamples.one_file)
+    = Some (Single 5 (Some (bs "5d41402abc4b2a76b9719d911017c592"))) /\
+  option_map m_mode (EndToEndShowExamples.loaded EndToEndShowExamples.no_opts EndToEndShowExamples.one_file)
+    = Some (Single 5 None) /\
+  option_map m_mode (EndToEndShowExamples.loaded EndToEndShowExamples.all_opts MetainfoProofs.ex_content)
+    = Some (Multiple [ {| f_length := 3; f_path := [bs "a"]; f_md5 := Some (bs "900150983cd24fb0d6963f7d28e17f72") |};
+                       {| f_length := 0; f_path := [bs "sub"; bs "b"];
+                          f_md5 := Some (bs "d41d8cd98f00b204e9800998ecf8427e") |} ]) /\
+  option_map m_mode (EndToEndShowExamples.loaded (EndToEndShowExamples.without_md5 EndToEndShowExamples.all_opts)
+                       MetainfoProofs.ex_content)
+    = Some (Multiple [ {| f_length := 3; f_path := [bs "a"]; f_md5 := None |};
+                       {| f_length := 0; f_path := [bs "sub"; bs "b"]; f_md5 := None |} ]).
+Proof. exact EndToEndShowExamples.ex_md5_carried. Qed.
+
+Example c07_e2e_depth_values :
+  option_map BencodeWide.depth
+    (Metainfo.build EndToEndShowExamples.idb EndToEndShowExamples.idb EndToEndShowExamples.ex_suffix
+       EndToEndShowExamples.all_opts MetainfoProofs.ex_content) = Some 5 /\
+  option_map BencodeWide.depth
+    (Metainfo.build EndToEndShowExamples.idb EndToEndShowExamples.idb EndToEndShowExamples.ex_suffix
+       EndToEndShowExamples.no_opts EndToEndShowExamples.one_file) = Some 2 /\
+  BencodeWide.max_depth = 2048.
+Proof. exact EndToEndShowExamples.ex_depth. Qed.
+
+(** each side condition is needed: with exactly that one false (the tuple: input_ok, opts_ok, piece length below
+    2^63, texts_utf8, content_shown_ok), the loader refuses the bytes the model of create writes *)
+Example c07_e2e_needs_utf8_texts :
+  EndToEndShowExamples.verdict (EndToEndShowExamples.with_comment EndToEndShowExamples.no_opts [255])
+    EndToEndShowExamples.one_file = ((true, true, true, false, true), Some ShowRejected).
+Proof. exact EndToEndShowExamples.ex_needs_utf8. Qed.
+
+Example c07_e2e_needs_md5_shape :
+  EndToEndShowExamples.verdict (EndToEndShowExamples.with_md5 EndToEndShowExamples.no_opts)
+    {| Metainfo.c_input := Metainfo.InFile (bs "f") 5 (bs "xyz"); Metainfo.c_pieces := repeat 7 20 |}
+  = ((true, true, true, true, false), Some ShowRejected).
+Proof. exact EndToEndShowExamples.ex_needs_md5_shape. Qed.
+
+Example c07_e2e_needs_plain_component :
+  EndToEndShowExamples.verdict EndToEndShowExamples.no_opts
+    (EndToEndShowExamples.a_dir [EndToEndShowExamples.a_file [bs ".."; bs "x"] 1] (repeat 7 20))
+  = ((true, true, true, true, false), Some ShowRejected).
+Proof. exact EndToEndShowExamples.ex_needs_plain_component. Qed.
+
+Example c07_e2e_needs_whole_pieces :
+  EndToEndShowExamples.verdict EndToEndShowExamples.no_opts
+    (EndToEndShowExamples.a_dir [EndToEndShowExamples.a_file [bs "x"] 1] (repeat 7 19))
+  = ((true, true, true, true, false), Some ShowRejected).
+Proof. exact EndToEndShowExamples.ex_needs_whole_pieces. Qed.
+
+Example c07_e2e_needs_total_within_u64 :
+  EndToEndShowExamples.verdict EndToEndShowExamples.no_opts
+    (EndToEndShowExamples.a_dir [EndToEndShowExamples.a_file [bs "a"] 9223372036854775807;
+                                 EndToEndShowExamples.a_file [bs "b"] 9223372036854775807;
+                                 EndToEndShowExamples.a_file [bs "c"] 9223372036854775807] (repeat 7 20))
+  = ((true, true, true, true, false), Some ShowRejected).
+Proof. exact EndToEndShowExamples.ex_needs_total_fits. Qed.
+
+Example c07_e2e_needs_i64_length :
+  EndToEndShowExamples.verdict EndToEndShowExamples.no_opts
+    {| Metainfo.c_input := Metainfo.InFile (bs "f") 9223372036854775808 []; Metainfo.c_pieces := repeat 7 20 |}
+  = ((false, true, true, true, true), Some ShowRejected).
+Proof. exact EndToEndShowExamples.ex_needs_input_ok. Qed.
+
+Example c07_e2e_needs_u16_port :
+  EndToEndShowExamples.verdict (EndToEndShowExamples.with_node EndToEndShowExamples.no_opts (bs "h.example", 65536))
+    EndToEndShowExamples.one_file = ((true, false, true, true, true), Some ShowRejected).
+Proof. exact EndToEndShowExamples.ex_needs_opts_ok. Qed.
+
+Example c07_e2e_needs_i64_piece_length :
+  EndToEndShowExamples.verdict (EndToEndShowExamples.with_piece_length EndToEndShowExamples.no_opts 9223372036854775808)
+    EndToEndShowExamples.one_file = ((true, true, false, true, true), Some ShowRejected).
+Proof. exact EndToEndShowExamples.ex_needs_piece_length. Qed.
+
+Print Assumptions c07_e2e_same_lookup.
+Print Assumptions c07_e2e_same_keys.
+Print Assumptions c07_e2e_same_total.
+Print Assumptions c07_created_value_loads.
+Print Assumptions c07_e2e_depth_within_limit.
+Print Assumptions c07_created_bytes_load.
+Print Assumptions c07_created_bytes_load_refused.
+Print Assumptions c07_created_md5_carried.
+Print Assumptions c07_created_md5_list.
+Print Assumptions c07_e2e_md5_values.
+Print Assumptions c07_e2e_depth_values.
+Print Assumptions c07_created_bytes_show_back.
+Print Assumptions c07_written_bytes_show_back.
+Print Assumptions c07_created_bytes_show_refused.
+Print Assumptions c07_created_absent_iff_not_given.
+Print Assumptions c07_e2e_all_options_hyps.
+Print Assumptions c07_e2e_all_options_report.
+Print Assumptions c07_e2e_no_option_hyps.
+Print Assumptions c07_e2e_no_option_report.
+Print Assumptions c07_e2e_needs_utf8_texts.
+Print Assumptions c07_e2e_needs_md5_shape.
+Print Assumptions c07_e2e_needs_plain_component.
+Print Assumptions c07_e2e_needs_whole_pieces.
+Print Assumptions c07_e2e_needs_total_within_u64.
+Print Assumptions c07_e2e_needs_i64_length.
+Print Assumptions c07_e2e_needs_u16_port.
+Print Assumptions c07_e2e_needs_i64_piece_length.
